@@ -23,7 +23,7 @@ from harness import translate_py_cmp as tr
 MANIFEST = dict(
     category="proof",
     technique="Lean 4 theorems over a hand-written model of the compare engine + differential correspondence with the implementation",
-    text='Lean theorems for every option record, flag record and both entry points: C10_xpath_match_spec / _zero / _pos / C10_str_vs_tuple (a pattern matches iff the parts after its last empty part equal the last parts of the path case-insensitively with * for one part; the result is the 1-based index of the first matching pattern; a str argument equals the one-element tuple); C10_exclude (the run with exclude_xpaths reports exactly the entries of the unrestricted run for which no tested prefix - one ending at a dictionary key, or the path of a list - matches, one line per remaining entry: both inclusions); C10_compare_only (entries located at dictionary entries are kept iff their path matches, entries located at list items are untouched). Transform (LeafTransform: every function is the identity on containers, maps scalars to scalars and None to a scalar or None): C10_transform_partial / C10_transform_verdict - for direct_compare, every other option and flag record, the run with transform on (a, b) and the run without it on the mapped trees (mapT) raise the same exception or return results of the same shape (line count, paths and pair kinds of the four lists), both directions; C10_transform_keyed / C10_transform_keyed_verdict (Proofs/CompareTransformKeyed.lean) - the same for the keyed/default entry point compare() WITHOUT a composite key on trees every list of which, at every depth, holds records only or leaves only: the n-th record meets the n-th record, and (fix C10-a) a leaf is keyed by the JSON text of its TRANSFORMED value, the key it has in the mapped tree, so both runs pair the same positions ([i]<>[j] included) and two leaves meet iff their transformed values have the same type and value (C10_transform_keyed_example: {"a":["A"]} vs {"a":["a"]} under ("//a", lower) reports nothing); KEPT AND REFUTED: C10_transform_stmt (both entry points, all trees) - C10_transform_refuted from C10_transform_keyed_nested_cex (known finding C10-b, what is left of C10-a: a list that is an item of a list is keyed by the JSON text of its UNtransformed leaves; needs a pattern naming the index of the inner list such as //a[0]); C10_transform_keyed_ck_cex - with a composite key the keyed statement fails even on lists of records (the key is built from the transformed field, which must be a str: TypeError for the identity on an int key field). The model (lean/N0Verif/Model/Compare.lean) follows n0dict.compare/direct_compare, n0list.compare/direct_compare, xpath_match, generate_composite_keys, update_extend and the flag machine branch by branch for the code WITH fix patches C07-a, C08-a, C09-a, C07-b, C07-c, C09-b, C10-a applied; it is compared with the implementation on generated pairs of trees (verdict, entry sets with rendered paths and values, number of prose lines, exception class) and the statement itself is executed on the implementation with Python-side oracles. SOURCE TIE of the pure pattern matcher every option goes through: on every run harness/translate_py_cmp.py re-translates the Python text of xpath_match (str-or-sequence argument, split, two nested for loops with enumerate/reversed, return/break/for-else, lower(), *, the empty part) into lean/N0Verif/Gen/XPathMatch.lean (two specialisations: xpath_list a str / a tuple-or-list of str, joined by Compare.PatArg), and Lean re-checks C10_generated_xpath_match_eq (translated definition = hand-written Compare.xpathMatch for every path text and every PatArg; in particular the translated code never raises), C10_generated_xpath_match_seq_eq / _str_eq (= xpathMatchFrom), C10_generated_step_matchOne, and the C10 matcher facts restated over the translated code (C10_xpath_match_zero_generated, C10_xpath_match_pos_generated, C10_str_vs_tuple_generated). A change of xpath_match changes the generated text, so it either still satisfies the equalities or a proof obligation fails; code outside the translated subset is reported as a broken tie. The translated definition has its own correspondence stream (xmgen.match) against the running function. generate_composite_keys is NOT translated (dict values, callables, f-strings: outside the subset); it stays tied by the cmp.keys streams only.',
+    text='Lean theorems for every option record, flag record and both entry points: C10_xpath_match_spec / _zero / _pos / C10_str_vs_tuple (a pattern matches iff the parts after its last empty part equal the last parts of the path case-insensitively with * for one part; the result is the 1-based index of the first matching pattern; a str argument equals the one-element tuple); C10_exclude (the run with exclude_xpaths reports exactly the entries of the unrestricted run for which no tested prefix - one ending at a dictionary key, or the path of a list - matches, one line per remaining entry: both inclusions); C10_compare_only (entries located at dictionary entries are kept iff their path matches, entries located at list items are untouched). Transform (LeafTransform: every function is the identity on containers, maps scalars to scalars and None to a scalar or None): C10_transform_partial / C10_transform_verdict - for direct_compare, every other option and flag record, the run with transform on (a, b) and the run without it on the mapped trees (mapT) raise the same exception or return results of the same shape (line count, paths and pair kinds of the four lists), both directions; C10_transform_keyed / C10_transform_keyed_verdict (Proofs/CompareTransformKeyed.lean) - the same for the keyed/default entry point compare() WITHOUT a composite key on trees every list of which, at every depth, holds records only or leaves only: the n-th record meets the n-th record, and (fix C10-a) a leaf is keyed by the JSON text of its TRANSFORMED value, the key it has in the mapped tree, so both runs pair the same positions ([i]<>[j] included) and two leaves meet iff their transformed values have the same type and value (C10_transform_keyed_example: {"a":["A"]} vs {"a":["a"]} under ("//a", lower) reports nothing); KEPT AND REFUTED: C10_transform_stmt (both entry points, all trees) - C10_transform_refuted from C10_transform_keyed_nested_cex (known finding C10-b, what is left of C10-a: a list that is an item of a list is keyed by the JSON text of its UNtransformed leaves; needs a pattern naming the index of the inner list such as //a[0]); WITH a composite key (fixes C08-b, C10-c): C10_transform_keyed_ck_keys - for EVERY composite key, LeafTransform, every pattern (patterns naming an index included) and every list whose items are leaves or records with leaf key fields, the keys the run with transform builds (JSON text of the TRANSFORMED key fields, each looked up with prefix[i]/field, the path the leaf comparison uses) are item by item the keys of the mapped list in the run without transform, so both runs pair the same positions and a pattern that names no dictionary entry changes no key; C10_ck_pairing_fixed - the inputs of finding C10-c (pattern rows/id with the constant function: nothing reported, as without the option; pattern rows[0]/id with lower on id "A" vs "a": the records meet); C10_transform_keyed_ck_fixed - the former counter-example (identity on an int key field raised TypeError) now returns; STATED, NOT PROVED: C10_transform_keyed_ck_stmt (the full TrERel statement with a composite key under IdxBlind - no pattern tells [i], [j] and [i]<>[j] apart; missing: the walk induction for pairs met across positions), executed on the implementation by evaluator transform/ck. The model (lean/N0Verif/Model/Compare.lean) follows n0dict.compare/direct_compare, n0list.compare/direct_compare, xpath_match, generate_composite_keys, update_extend and the flag machine branch by branch for the code WITH fix patches C07-a, C08-a, C09-a, C07-b, C07-c, C09-b, C10-a, C07-d, C08-b, C10-c applied; it is compared with the implementation on generated pairs of trees (verdict, entry sets with rendered paths and values, number of prose lines, exception class) and the statement itself is executed on the implementation with Python-side oracles. SOURCE TIE of the pure pattern matcher every option goes through: on every run harness/translate_py_cmp.py re-translates the Python text of xpath_match (str-or-sequence argument, split, two nested for loops with enumerate/reversed, return/break/for-else, lower(), *, the empty part) into lean/N0Verif/Gen/XPathMatch.lean (two specialisations: xpath_list a str / a tuple-or-list of str, joined by Compare.PatArg), and Lean re-checks C10_generated_xpath_match_eq (translated definition = hand-written Compare.xpathMatch for every path text and every PatArg; in particular the translated code never raises), C10_generated_xpath_match_seq_eq / _str_eq (= xpathMatchFrom), C10_generated_step_matchOne, and the C10 matcher facts restated over the translated code (C10_xpath_match_zero_generated, C10_xpath_match_pos_generated, C10_str_vs_tuple_generated). A change of xpath_match changes the generated text, so it either still satisfies the equalities or a proof obligation fails; code outside the translated subset is reported as a broken tie. The translated definition has its own correspondence stream (xmgen.match) against the running function. generate_composite_keys is NOT translated (dict values, callables, f-strings: outside the subset); it stays tied by the cmp.keys streams only.',
     note='str.lower() is modelled for ASCII (patterns/keys) and Latin-1 (transform lower); transform functions come from the family identity/lower/constant/numeric truncation (float lexemes of the form [-]d+.d+). Trusted for the translator tie: the reading of the Python subset by the translator (notes/C10-gen.md, C01-gen.md, C13-gen.md) and the library definitions it uses (str.split = Py.split, str.lower = Py.lower i.e. ASCII lower-casing - non-ASCII cased letters are outside the model and the streams generate none -, reversed(list) in a loop header = List.reverse, x[i] = idxE, enumerate = List.zipIdx); the run-time class of the argument is the PatArg constructor (the TypeError branch for other classes is not translated).',
     design_ref='5/C10',
 )
@@ -172,6 +172,10 @@ def check_transform(c):
         return None
     k_tr = sorted((e[0] if e[0] != "dt" else "ne", e[1]) for e in cc.entries_of(r_tr) if e[0] in ("ne", "su", "ou", "dt"))
     k_map = sorted((e[0] if e[0] != "dt" else "ne", e[1]) for e in cc.entries_of(r_map) if e[0] in ("ne", "su", "ou", "dt"))
+    if c.get("_kind") == "transform-ck" and any("[" in pat for pat, _n in c["tr"]) and any("<>" in (e[1] or "") for e in cc.entries_of(r_tr) + cc.entries_of(r_map) if e[0] in ("ne", "su", "ou", "dt")):
+        # a pattern that names an index and a pair of records met across positions: the compared leaves sit at
+        # prefix[i]<>[j]/field, which the pattern (written for prefix[i]/field) cannot name - outside the statement
+        return None
     if k_tr != k_map:
         return {"only_with_transform": [x for x in k_tr if x not in k_map][:4], "only_on_mapped_trees": [x for x in k_map if x not in k_tr][:4], "tr": c["tr"]}
     # reports show the original values
@@ -312,6 +316,32 @@ def leaf_edits(rng, t):
     return t + 1
 
 
+def gen_trck_case(rng):
+    """transform COMBINED WITH a composite key (fixes C08-b / C10-c): a list of keyed records under `rows`, patterns of the
+    form rows/<field> (names no dictionary entry of the tree: must change nothing), rows[i]/<field>, //<field>, */<field>
+    for key fields and payload fields; the second operand is the first with letter case / fractions / records edited,
+    permuted unless a pattern names an index"""
+    fields = rng.choice([["id"], ["id"], ["id", "k"]])
+    values = rng.choice([["a", "A", "b", "B", "Ab", "aB", "x y", "X Y"], ["a", "A", "1", 1, None, 1.5, 1.0, 2.5, 2, True], cc.KEY_VALUES])
+    l1 = cc.gen_keyed_list(rng, 1, fields, nested_keyed=False, values=values)
+    named = rng.random() < 0.3
+    l2 = copy.deepcopy(l1) if named or rng.random() < 0.3 else cc.mutate_keyed(rng, l1, fields, 1)
+    l2 = leaf_edits(rng, l2)
+    if not named:
+        rng.shuffle(l2)
+    trs = []
+    for _ in range(rng.choice([1, 1, 2])):
+        f = rng.choice(fields + fields + ["v", "name"])
+        if named:
+            pat = "rows[%d]/%s" % (rng.randrange(max(1, len(l1))), f)
+        else:
+            pat = rng.choice(["rows/" + f, "rows/" + f, "//" + f, "*/" + f, f, "/rows/" + f, cc.mixcase(rng, "//" + f)])
+        trs.append([pat, rng.choice(cc.TR_NAMES)])
+    wrap = rng.choice([lambda l: {"rows": l}, lambda l: {"rows": l, "n": 1}, lambda l: {"top": {"rows": l}}])
+    ck = fields[0] if len(fields) == 1 and rng.random() < 0.4 else fields
+    return {"mode": "k", "setters": cc.gen_setters(rng), "ck": ck, "only": [], "excl": [], "tr": trs, "a": wrap(l1), "b": wrap(l2), "_kind": "transform-ck"}
+
+
 def keyed_safe_pattern(rng, a, b):
     """patterns that do not name list indexes (in keyed mode the index part of a path depends on the pairing)"""
     names = sorted({p.split("/")[-1].split("[")[0] for p in list(cc.key_paths(a)) + list(cc.key_paths(b))}) or ["a"]
@@ -414,8 +444,14 @@ def run(ctx):
     for _ in range(n // 3):
         lst = cc.gen_list(rng, 3)
         ck = rng.choice([rng.sample(cc.KEYS, 1), rng.sample(cc.KEYS, 2), rng.choice(cc.KEYS)])
-        tr = [[rng.choice(["//" + k for k in cc.KEYS] + ["*", "", "/p/*"]), rng.choice(cc.TR_NAMES)] for _ in range(rng.choice([1, 2]))]
+        # a key field is looked up with /p[i]/<field> (fix C10-c), an item that is no record with /p
+        tr = [[rng.choice(["//" + k for k in cc.KEYS] + ["p/" + k for k in cc.KEYS[:5]] + ["p[%d]/%s" % (i, k) for i in (0, 1, 2) for k in cc.KEYS[:5]] + ["*", "", "/p/*", "/p[0]/*"]), rng.choice(cc.TR_NAMES)] for _ in range(rng.choice([1, 2]))]
         kcases.append({"list": lst, "ck": ck, "tr": tr})
+    for _ in range(n // 6):
+        fields = rng.choice([["id"], ["id", "k"]])
+        lst = cc.gen_keyed_list(rng, 1, fields, nested_keyed=False)
+        tr = [[rng.choice(["//id", "p/id", "p[0]/id", "p[1]/id", "*/k", "//k", "id"]), rng.choice(cc.TR_NAMES)] for _ in range(rng.choice([1, 2]))]
+        kcases.append({"list": lst, "ck": rng.choice([fields, fields[0]]), "tr": tr})
 
     def keys_impl(c):
         r = core.call(uc.generate_composite_keys, cc.build(c["list"]), cc.py_patarg(c["ck"]), "/p", cc.py_tr(c["tr"]))
@@ -477,6 +513,18 @@ def run(ctx):
     ctx.evaluate("transform/scalar-items", tcases, check_transform, in_known=known_class)
     ctx.extra["scalar_items_paired_across_positions"] = sum(
         1 for c in tcases[:1500] if c["mode"] == "k" and (lambda r: r.status == "ok" and len(r.res["differences"]) < len(c["a"]) + len(c["b"]))(cc.run_impl(c)))
+    # fixes C08-b / C10-c on purpose: transform combined with a composite key
+    rng = ctx.rng("transform-ck")
+    kccases = [gen_trck_case(rng) for _ in range(n // 3)]
+    ctx.correspond("cmp.run/transform-ck", kccases, cc.corr_line, cc.corr_impl)
+    ctx.evaluate("transform/ck", kccases, check_transform, in_known=known_class, nontrivial=lambda c: len(c["a"].get("rows", c["a"].get("top", {}).get("rows", []) if isinstance(c["a"].get("top"), dict) else [])) > 1)
+    ctx.extra["transform_ck"] = {
+        "cases": len(kccases),
+        "pattern_names_no_entry": sum(1 for c in kccases if any(p.lower().startswith("rows/") for p, _ in c["tr"])),
+        "pattern_names_an_index": sum(1 for c in kccases if any("[" in p for p, _ in c["tr"])),
+        "transform_changed_the_report_first_1500": sum(
+            1 for c in kccases[:1500] if (lambda r1, r0: r1.status == "ok" and r0.status == "ok" and len(r1.res["differences"]) != len(r0.res["differences"]))(cc.run_impl(c), cc.run_impl(c, override={"tr": []}))),
+    }
     # the residual class C10-b (known finding) on purpose: a transformed leaf inside a list nested in a list
     ncases = []
     for _ in range(ctx.budget(60, 400)):
@@ -498,8 +546,8 @@ def run(ctx):
     ctx.extra["assumptions"] = [
         "patterns and key names are ASCII (str.lower() is modelled for ASCII letters)",
         "transform functions come from the family identity / lower / constant / numeric truncation, all identities on containers (LeafTransform)",
-        "trees are converted recursively; the model follows the code with fix patches C07-a, C08-a, C09-a, C07-b, C07-c, C09-b, C10-a applied",
-        "keyed mode: transform patterns do not name list indexes (the index part of a path depends on the pairing); the one exception is the stream of the known finding C10-b",
+        "trees are converted recursively; the model follows the code with fix patches C07-a, C08-a, C09-a, C07-b, C07-c, C09-b, C10-a, C07-d, C08-b, C10-c applied",
+        "keyed mode: transform patterns do not name list indexes (the index part of a path depends on the pairing); exceptions: the stream of the known finding C10-b, and stream transform/ck where a pattern rows[i]/<field> is judged only when no reported pair was met across positions",
     ]
     ctx.extra["assumptions"].append(
         "translated xpath_match: translated for xpath a str and xpath_list a str or a tuple/list of str (the isinstance guards are decided per "
